@@ -1,6 +1,6 @@
 package sim
 
-// Fault enumeration tier (C07, C31): for a fixed list of scenarios - every write kind x {single request on
+// Fault enumeration tier (C07, C31; since wave 9 also C08, C15 and C03 with their own oracles): for a fixed list of scenarios - every write kind x {single request on
 // an in-use ledger, first write of a pristine ledger, element of a non-atomic bulk, element of an atomic
 // bulk} x {contract model, real SQL} - one fault-free run numbers the yield points of the request (every
 // store call / SQL statement, BeginTX, Commit, LockLedger...) and the fault kinds each admits; then one run
@@ -27,6 +27,13 @@ func enumScenarios(prop string) []enumScenario {
 		checks = []string{"logs-match-ops", "replay", "events", "no-leaked-locks"}
 	case "C31":
 		checks = []string{"events", "logs-match-ops"}
+	case "C08":
+		// the journal is the state, whatever single fault (crash included) strikes a write, wherever
+		checks = []string{"logs-match-ops", "replay", "log-order"}
+	case "C15":
+		checks = []string{"reverts", "conservation", "logs-match-ops", "revert-answers"}
+	case "C03":
+		checks = []string{"pcv", "conservation", "logs-match-ops"}
 	default:
 		return nil
 	}
